@@ -309,6 +309,23 @@ ASSUMPTIONS = [
 ]
 
 
+def unbound_kind(spec, name):
+    """coarse class of an unbound name (shared by the known-finding signatures of several checks)"""
+    m = spec.get("mapping") or {}
+    lo = sum((m.get("loop-order") or {}).values(), [])
+    part = m.get("partitioning") or {}
+    if name in lo and name[-1:].isdigit():
+        return "level-name-as-size"
+    if name.upper() in lo and name.islower():
+        for ranks in part.values():
+            for key in (ranks or {}):
+                if key.strip().startswith("("):
+                    flat = "".join(x.strip() for x in key.strip()[1:-1].split(","))
+                    if name.upper().startswith(flat):
+                        return "flattened-rank-coord-stamp"
+    return name
+
+
 def classify(whats):
     """coarse class of a list of differences (used in known-finding signatures)"""
     ks = set()
@@ -365,8 +382,7 @@ def work_equiv(spec, metrics=False, twin=True, targets=None, total=False):
             import re as _re
             m = _re.search(r"NameError: (\w+)", " ".join(diffs))
             nm = m.group(1) if m else "?"
-            lo = sum(((spec.get("mapping") or {}).get("loop-order") or {}).values(), [])
-            r["sig"]["unbound"] = "loop-rank-level" if nm in lo and nm[-1:].isdigit() else nm
+            r["sig"]["unbound"] = unbound_kind(spec, nm)
         r["replay"] = {"spec": spec, "metrics": metrics, "text": text, "presence": pres, "targets": targets,
                        "differences": diffs}
         return r
@@ -534,8 +550,7 @@ def work_names(spec, metrics=False):
         import re as _re
         m = _re.search(r"NameError: (\w+)", " ".join(diffs))
         nm = m.group(1) if m else "?"
-        lo = sum(((spec.get("mapping") or {}).get("loop-order") or {}).values(), [])
-        sig["unbound"] = "loop-rank-level" if nm in lo and nm[-1:].isdigit() else nm
+        sig["unbound"] = unbound_kind(spec, nm)
     return dict(res, status="violation", confirmed=bool(diffs), why="; ".join((problems or which(obls, model))[:3]) + " | concrete replay: " + "; ".join(diffs[:3]),
                 sig=sig,
                 replay={"spec": spec, "metrics": metrics, "text": text, "presence": pres, "differences": diffs, "targets": None})
